@@ -437,6 +437,11 @@ def directed_c01():
     D.append(("switch_break_in_nested_if_then_rest", [("for", ("decl", "i", "0"), "i < n", ("inc", "i"), [("switch", None, "i & 1", [("0", [("if", "g1", [Y("i + 1")], [("break",)]), Y("i + 2")])], [Y("i + 3")]), Y("i + 4")]), Y("a")]))
     D.append(("switch_break_in_block_after_yield", [("switch", None, "a & 1", [("0", [("block", [Y("a + 1"), ("if", "g1", [("break",)], None), E(1)]), Y("a + 2")])], None), Y("b")]))
     D.append(("tswitch_break_after_yield", [("raw", "var t any = a"), ("for", ("decl", "i", "0"), "i < n", ("inc", "i"), [("tswitch", "v", "t", [("int", [Y("v + i"), ("if", "g1", [("break",)], None), Y("v + 1")])], None), Y("i + 2")]), Y("b")]))
+    D.append(("continue_then_break_behind_yield_yield_post", [("decl", "i", "0"), ("for", None, "i < n + 3", ("yield", "i + 100"), [("inc", "i"), ("if", "g1", [("continue",)], None), Y("i + 1"), ("if", "i >= 1", [("break",)], None), E(1)]), Y("a")]))
+    D.append(("yield_first_then_continue_yield_post", [("for", ("decl", "i", "0"), "i < n", ("yield", "0 - 1"), [Y("i + 1"), ("inc", "i"), ("if", "g1", [("continue",)], None), E(1)]), Y("a")]))
+    D.append(("yield_only_body_continue_in_if_yield_post", [("decl", "i", "0"), ("for", None, "i < n", ("yield", "i + 100"), [("if", "g1", [Y("i + 1"), ("inc", "i"), ("continue",)], [("inc", "i")])]), Y("a")]))
+    D.append(("switch_break_and_continue_in_loop", [("for", ("decl", "i", "0"), "i < n + 1", ("inc", "i"), [("switch", None, "i & 1", [("0", [Y("i + 1"), ("continue",)]), ("1", [Y("i + 2"), ("if", "g1", [("break",)], None), Y("i + 3")])], None), Y("i + 4")]), Y("a")]))
+    D.append(("switch_in_yield_post_loop_break_continue", [("decl", "i", "0"), ("for", None, "i < n + 1", ("yield", "i + 100"), [("inc", "i"), ("switch", None, "i & 1", [("0", [Y("i + 1"), ("if", "g1", [("break",)], None), Y("i + 2")]), ("1", [Y("i + 3"), ("continue",)])], None), Y("i + 4")]), Y("a")]))
     D.append(("tagless_switch_in_loop_with_continue", [("for", ("decl", "i", "0"), "i < n", ("inc", "i"), [("switch", None, None, [("i == 0", [Y("a + 1")]), ("i > 1", [Y("i + 2"), ("continue",)])], [E(1)]), Y("i + 100")]), Y("b")]))
     D.append(("tagless_switch_with_init_last_in_loop", [("for", ("decl", "i", "0"), "i < n", ("inc", "i"), [("switch", ("decl", "x", "i + a"), None, [("x > b", [Y("x + 1")]), ("g1", [E(1)])], None)]), Y("b")]))
     D.append(("for_without_condition", [("for", ("decl", "i", "0"), None, ("inc", "i"), [("if", "i >= n", [("break",)], None), Y("i + 1"), ("if", "g1", [("continue",)], None), E(1)]), Y("a")]))
@@ -811,6 +816,8 @@ def directed_c05():
     D.append(("fallthrough_into_delegating_clause", [("raw", "switch a & 1 {\ncase 0:\n\trt.Emit(rt.EFF, 760)\n\tfallthrough\ncase 1:\n\tYieldFrom(H2(a))\n}"), Y("b")]))
     D.append(("else_block_trivial_if_then_delegation", [("if", "g1", [Y("a + 1")], [("if", "g2", [("eff", 762)], None), YF("H2(b)"), Y("b + 2")]), Y("a + 3")]))
     D.append(("else_block_trivial_if_then_shared_delegate", [("raw", "it := H1(a)"), ("if", "g1", [YF("it")], [("if", "g2", [("eff", 763)], None), ("raw", "it.MoveNext()"), YF("it")]), YF("it"), Y("b")]))
+    D.append(("continue_in_switch_yieldfrom_post", [("decl", "i", "0"), ("for", None, "i < n", ("yieldfrom", "H2(i)"), [("inc", "i"), ("switch", None, "i & 1", [("1", [("eff", 764), ("continue",)])], None), Y("i + 1")]), Y("a")]))
+    D.append(("continue_in_tswitch_yieldfrom_post", [("raw", "var t any = a"), ("decl", "i", "0"), ("for", None, "i < n", ("yieldfrom", "H2(i)"), [("inc", "i"), ("tswitch", None, "t", [("int", [("if", "g1", [("continue",)], None)])], None), Y("i + 1")]), Y("b")]))
     D.append(("same_iter_twice", [("raw", "it := H1(a)"), YF("it"), YF("it"), Y("b")]))
     return D
 
@@ -890,6 +897,11 @@ def directed_c03():
     D.append(("for_nocond_shadow_param", [("for", ("decl", "a", "0"), None, ("inc", "a"), [("if", "a >= n", [("break",)], None), Y("a + 1")]), Y("a + 2")]))
     D.append(("for_nocond_two_var_init_captured", [("decl", "x", "a + 100"), ("raw", "get := func() int { return x }"), ("for", ("raw", "x, j := 0, n+1"), None, ("raw", "x, j = x+1, j-1"), [("if", "x >= j", [("break",)], None), Y("x + get()")]), Y("get() + 2")]))
     D.append(("for_nocond_native_shadow", [("decl", "x", "a + 7"), ("decl", "t", "0"), ("for", ("decl", "x", "0"), None, ("inc", "x"), [("if", "x >= n", [("break",)], None), ("assign", "t", "t + x")]), Y("x + t")]))
+    # the body of a range loop is a scope of its own: a ':=' that reuses the name of a range variable shadows it
+    D.append(("range_two_vars_body_redeclares_value", [("range", "k", "v", ":=", "[]int{a, b, a + b}", [("raw", "get := func() int { return v }"), ("raw", "v, w := v*2, k + 1"), Y("v + w"), Y("get() + 3")]), Y("a + 4")]))
+    D.append(("range_two_vars_body_redeclares_key", [("range", "k", "v", ":=", "[]int{a, b}", [("raw", "p := &k"), ("raw", "k, ok := v + 10, v > a"), ("if", "ok", [Y("k")], None), Y("*p + 5")]), Y("b + 6")]))
+    D.append(("range_one_var_body_shadows", [("range", "_", "v", ":=", "[]int{a, b}", [("raw", "get := func() int { return v }"), ("raw", "v := v + 100"), Y("v"), Y("get()")]), Y("a")]))
+    D.append(("range_two_vars_noyield_body_redeclares", [("decl", "t", "0"), ("range", "k", "v", ":=", "[]int{a, b, a + b}", [("raw", "get := func() int { return v + k }"), ("raw", "v, w := v*2, k + 1"), ("assign", "t", "t*4 + v + w + get()")]), Y("t")]))
     D.append(("init_after_yield", [Y("a + 1"), ("for", ("decl", "x", "a"), "x < a + n", ("inc", "x"), [Y("x + 2")]), ("decl", "x", "b"), Y("x + 3")]))
     # loop-variable identity: closures created in one iteration, called after the loop
     D.append(("range_var_captured_escapes", [("raw", "var fs []func() int"), ("range", "_", "v", ":=", "[]int{a, b, a + b}", [("raw", "fs = append(fs, func() int { return v })"), Y("v + 1")]), ("raw", "for _, f := range fs {\n\tYield(f() + 1000)\n}")]))
@@ -1227,10 +1239,16 @@ def plan_C14(ctx):
             p = gen.Program("i%04d" % n, body, helpers=helpers, named_result=(n % 2 == 0), family="il")
             if "map[" in repr(body):
                 map_pids.append(p.pid)
-            makers = ["%s(a, b, n, g1, g2, g3)" % p.name, "%s(a, b, n, g1, g2, g3)" % p.name, "%s(b, a, n, !g1, g2, g3)" % p.name][:k]
+            S = "stepI%s" % p.pid
+            makers = ["%s(%s(a, b, n, g1, g2, g3))" % (S, p.name), "%s(%s(a, b, n, g1, g2, g3))" % (S, p.name), "%s(%s(b, a, n, !g1, g2, g3))" % (S, p.name)][:k]
             if helpers == gen.C05_HELPERS and k >= 2:
-                makers[1] = "R1(n+1, b)"  # a recursive delegator as the second iterator
-            p.helpers = (p.helpers + "\n" if p.helpers else "") + gen.il_driver(p.name, k, m, makers)
+                makers[1] = "%s(R1(n+1, b))" % S  # a recursive delegator as the second iterator
+            p.helpers = (p.helpers + "\n" if p.helpers else "") + gen.IL_HELPERS.replace("@", p.pid) + "\n" + gen.il_driver(p.name, k, m, makers)
+            if n % 3 == 0:
+                # iterators of two element types interleaved (runtime state keyed by nothing but luck
+                # would be shared across instantiations)
+                mixed = ["%s(%s(a, b, n, g1, g2, g3))" % (S, p.name), "stepS%s(GS%s(a, n))" % (p.pid, p.pid)]
+                p.helpers += "\n" + gen.il_driver(p.name, 2, m, mixed, suffix="X")
             n += 1
             corp.add(p)
         return {"programs": n, "iterators_k": k, "steps_each_m": m, "interleavings_per_program": "all schedules giving each iterator exactly m steps (k=2,m=3: 20; k=3,m=2: 90)"}
@@ -1256,7 +1274,7 @@ def plan_C14(ctx):
         raise CheckError("no corpus package survived compilation")
     args = engine_common(ctx)
     args[args.index("-maxpaths") + 1] = "200000"
-    res = runner.run_engine(ctx, hargs + ["-drivers", "^DriveIL_"] + args)
+    res = runner.run_engine(ctx, hargs + ["-drivers", "^DriveILX?_"] + args)
     # integer-range generators (the integer iterator is runtime state too) need go >= 1.22 sources
     ctx22 = runner.SubCtx(ctx, "ws22", "1.22")
     corp22 = corpus.Corpus(ctx22, "c14i")
@@ -1270,7 +1288,7 @@ def plan_C14(ctx):
     ]
     for bi, body in enumerate(int_bodies):
         p = gen.Program("j%04d" % bi, body, named_result=True, family="ili")
-        p.helpers = gen.il_driver(p.name, k, m, ["%s(a, b, n, g1, g2, g3)" % p.name, "%s(b, a, n, g1, g2, g3)" % p.name, "%s(a, a, n-1, g1, g2, g3)" % p.name][:k])
+        p.helpers = gen.IL_HELPERS.replace("@", p.pid) + "\n" + gen.il_driver(p.name, k, m, ["stepI%s(%s)" % (p.pid, x) for x in ["%s(a, b, n, g1, g2, g3)" % p.name, "%s(b, a, n, g1, g2, g3)" % p.name, "%s(a, a, n-1, g1, g2, g3)" % p.name][:k]])
         corp22.add(p)
     corp22.write(4, 0, -1, 2)
     corp22.compile()
@@ -1279,7 +1297,7 @@ def plan_C14(ctx):
     for d in corp22.batches:
         if any(w == d for w in corp22.where.values()):
             h22 += ["-harness", "verifws/out/%s" % d]
-    res22 = runner.run_engine(ctx22, h22 + ["-drivers", "^DriveIL_"] + args, name="result22") if h22 else {"drivers": [], "functions_encoded": {}}
+    res22 = runner.run_engine(ctx22, h22 + ["-drivers", "^DriveILX?_"] + args, name="result22") if h22 else {"drivers": [], "functions_encoded": {}}
     new, known, replayed, mism, details = 0, [], 0, 0, []
     for d in res22["drivers"]:
         d["_ws22"] = True
